@@ -211,7 +211,8 @@ def _run(res, rng, tier, driver, work):
                 real_none = list(shim.ops)
             # the fsync must be on the temp file, after the last write and the flush
             names = [o[0] for o in shim.ops]
-            if not (names.index("fsync") > max(i for i, n in enumerate(names) if n in ("write", "flush"))
+            if not ("fsync" in names and "rename" in names
+                    and names.index("fsync") > max([i for i, n in enumerate(names) if n in ("write", "flush")] or [-1])
                     and shim.ops[names.index("fsync")][1] == pu.tmp_name(main)
                     and names.index("fsync") < names.index("rename")):
                 res.oracle_failures.append({"key": {"kind": "fsync-order", "fmt": fmt}, "what": "temp file is not "
@@ -303,9 +304,7 @@ def run_point(res, fmt, cfg, sb, st, mode, at, enc, stale_variants, states, proj
             raised = "other:" + type(exc).__name__
     if mode == "crash" and raised is None:
         # the point after the last operation: the save completed; the process dies afterwards
-        snap["files"] = files_of(main)
-        snap["unsynced"] = set()
-        snap["done"] = list(shim.ops)
+        on_crash(shim)
 
     def cls_files(f):
         out = []
